@@ -3,9 +3,16 @@ import CJ.Lemmas.Covert
 # C06 — the station never dials a covert address that policy forbids
 
 Property theorems only.  The theorems hold for **every** policy, every environment (`Contains`,
-`MatchString` are arbitrary functions) and every combination of answers the standard library could give
-(`Answers`), so in particular for every covert string and for resolvers whose answers change between
-lookups: admission consumes one resolver answer, the proxy none.
+`MatchString`, `IP.String` are arbitrary functions), every combination of answers the standard library
+could give about the covert string (`Answers`) and every **resolver stream** (`Resolver`: the `n`-th
+lookup is answered `rs n`, so a name may be answered differently at every lookup).  Admission consumes
+exactly one resolver answer; the dial of an admitted registration consumes none and does not depend on
+the stream at all.
+
+The second group of theorems is about *which object* ends up dialable: any number of ingest workers
+(each with its own freshly parsed registration object for the same key: duplicate deliveries, re-sent
+registrations with another covert address) interleaved in any order at the scheduling points of
+`ingestRegistration`.
 
 Reading of "policy forbids" (decided with the lead, documented in `app_config.toml`: *"Override the
 blocklist providing a more restrictive allowlist"*): when an allowlist is configured an address is
@@ -34,19 +41,20 @@ theorem isBlocklisted_iff_forbids (env : Env Net Pat IP) (pol : Policy Net Pat) 
   | false => simp only [Bool.false_eq_true, if_false, any_contains_iff]
 
 /-- **Accepted ⇒ permitted literal.**  If the covert is not rejected then: the string split into host and
-port, the port is a uint16, the host matched no blocklisted domain pattern, the single resolution gave an
-address with an IP and no zone, the policy does not forbid that IP, and the returned string is exactly
-`JoinHostPort(text of that address, port)`. -/
-theorem accepted_is_permitted_literal (env : Env Net Pat IP) (pol : Policy Net Pat) (a : Answers IP)
-    (h : (parseOrResolve env pol a).out ≠ "") :
-    ∃ host port ip text,
+port, the port is a uint16, the host matched no blocklisted domain pattern, the one lookup (the answer
+under the cursor) gave an address with an IP and no zone, the policy does not forbid that IP, and the
+returned string is exactly `JoinHostPort(IP.String(), port)` **of that IP** — the literal text of the
+address that was checked, not a string supplied from elsewhere. -/
+theorem accepted_is_permitted_literal (env : Env Net Pat IP) (pol : Policy Net Pat) (a : Answers)
+    (rs : Resolver IP) (n : Nat) (h : (parseOrResolve env pol a rs n).out ≠ "") :
+    ∃ host port ip,
       a.split = some (host, port) ∧ a.portOk = true ∧
       (∀ p ∈ pol.domains, env.matchString p host = false) ∧
-      a.resolved = .addr (some ip) "" text ∧
+      rs n = .addr (some ip) "" ∧
       ¬ Forbids env pol ip ∧
-      (parseOrResolve env pol a).out = joinHostPort text port := by
-  obtain ⟨host, port, ip, text, _, hs, hd, hk, hr, hb, hout⟩ := (accepted_iff env pol a).mp h
-  refine ⟨host, port, ip, text, hs, hk, ?_, hr, ?_, by rw [hout]⟩
+      (parseOrResolve env pol a rs n).out = joinHostPort (env.ipText ip) port := by
+  obtain ⟨host, port, ip, _, hs, hd, hk, hr, hb, hout⟩ := (accepted_iff env pol a rs n).mp h
+  refine ⟨host, port, ip, hs, hk, ?_, hr, ?_, by rw [hout]⟩
   · intro p hp
     unfold isBlocklistedCovertDomain at hd
     cases hm : env.matchString p host with
@@ -58,69 +66,70 @@ theorem accepted_is_permitted_literal (env : Env Net Pat IP) (pol : Policy Net P
     rw [← isBlocklisted_iff_forbids, hb] at hf; cases hf
 
 /-- without an allowlist: outside every blocklisted subnet -/
-theorem accepted_outside_blocklist (env : Env Net Pat IP) (pol : Policy Net Pat) (a : Answers IP)
-    (hna : pol.enableAllow = false) (h : (parseOrResolve env pol a).out ≠ "") :
-    ∃ ip zone_free_text, a.resolved = .addr (some ip) "" zone_free_text ∧
-      ∀ n ∈ pol.block, env.contains n ip = false := by
-  obtain ⟨_, _, ip, text, _, _, _, hr, hf, _⟩ := accepted_is_permitted_literal env pol a h
-  refine ⟨ip, text, hr, ?_⟩
-  intro n hn
-  cases hc : env.contains n ip with
+theorem accepted_outside_blocklist (env : Env Net Pat IP) (pol : Policy Net Pat) (a : Answers)
+    (rs : Resolver IP) (n : Nat)
+    (hna : pol.enableAllow = false) (h : (parseOrResolve env pol a rs n).out ≠ "") :
+    ∃ ip, rs n = .addr (some ip) "" ∧ ∀ net ∈ pol.block, env.contains net ip = false := by
+  obtain ⟨_, _, ip, _, _, _, hr, hf, _⟩ := accepted_is_permitted_literal env pol a rs n h
+  refine ⟨ip, hr, ?_⟩
+  intro net hn
+  cases hc : env.contains net ip with
   | false => rfl
   | true =>
     exfalso; apply hf
     unfold Forbids; simp only [hna, Bool.false_eq_true, if_false]
-    exact ⟨n, hn, hc⟩
+    exact ⟨net, hn, hc⟩
 
 /-- with an allowlist configured: inside the allowlist -/
-theorem accepted_inside_allowlist (env : Env Net Pat IP) (pol : Policy Net Pat) (a : Answers IP)
-    (hal : pol.enableAllow = true) (h : (parseOrResolve env pol a).out ≠ "") :
-    ∃ ip text, a.resolved = .addr (some ip) "" text ∧ inAny env pol.allow ip := by
-  obtain ⟨_, _, ip, text, _, _, _, hr, hf, _⟩ := accepted_is_permitted_literal env pol a h
-  refine ⟨ip, text, hr, ?_⟩
+theorem accepted_inside_allowlist (env : Env Net Pat IP) (pol : Policy Net Pat) (a : Answers)
+    (rs : Resolver IP) (n : Nat)
+    (hal : pol.enableAllow = true) (h : (parseOrResolve env pol a rs n).out ≠ "") :
+    ∃ ip, rs n = .addr (some ip) "" ∧ inAny env pol.allow ip := by
+  obtain ⟨_, _, ip, _, _, _, hr, hf, _⟩ := accepted_is_permitted_literal env pol a rs n h
+  refine ⟨ip, hr, ?_⟩
   unfold Forbids at hf
   simp only [hal, if_true] at hf
   exact Classical.not_not.mp hf
 
 /-- the literal conjunction of the property text -/
 def accepted_is_permitted_literal_full : Prop :=
-  ∀ (env : Env Nat Nat Unit) (pol : Policy Nat Nat) (a : Answers Unit),
+  ∀ (env : Env Nat Nat Unit) (pol : Policy Nat Nat) (a : Answers) (rs : Resolver Unit) (n : Nat),
     (pol.enableAllow = true ↔ pol.allow ≠ []) →
-    (parseOrResolve env pol a).out ≠ "" →
-    ∃ ip zone text, a.resolved = .addr (some ip) zone text ∧
-      (∀ n ∈ pol.block, env.contains n ip = false) ∧ (pol.allow ≠ [] → inAny env pol.allow ip)
+    (parseOrResolve env pol a rs n).out ≠ "" →
+    ∃ ip zone, rs n = .addr (some ip) zone ∧
+      (∀ net ∈ pol.block, env.contains net ip = false) ∧ (pol.allow ≠ [] → inAny env pol.allow ip)
 
 /-- … does not hold: a configured allowlist overrides the blocklist, so an address inside both lists is
 accepted (documented behaviour; not repaired, see the header). -/
 theorem accepted_is_permitted_literal_full_refuted : ¬ accepted_is_permitted_literal_full := by
   intro hfull
-  let env : Env Nat Nat Unit := { contains := fun _ _ => true, matchString := fun _ _ => false }
+  let env : Env Nat Nat Unit := { contains := fun _ _ => true, matchString := fun _ _ => false, ipText := fun _ => "10.1.2.3" }
   let pol : Policy Nat Nat := { block := [0], allow := [1], enableAllow := true, domains := [] }
-  let a : Answers Unit := { providedIsIP := false, split := some ("10.1.2.3", "80"), portOk := true,
-                            hostIsIP := true, resolved := .addr (some ()) "" "10.1.2.3" }
-  have hacc : (parseOrResolve env pol a).out ≠ "" := by
-    apply (accepted_iff env pol a).mpr
-    exact ⟨"10.1.2.3", "80", (), "10.1.2.3", rfl, rfl, rfl, rfl, rfl, rfl, rfl⟩
-  obtain ⟨ip, zone, text, _, hb, _⟩ := hfull env pol a (by simp [pol]) hacc
+  let a : Answers := { providedIsIP := false, split := some ("10.1.2.3", "80"), portOk := true, hostIsIP := true }
+  let rs : Resolver Unit := fun _ => .addr (some ()) ""
+  have hacc : (parseOrResolve env pol a rs 0).out ≠ "" := by
+    apply (accepted_iff env pol a rs 0).mpr
+    exact ⟨"10.1.2.3", "80", (), rfl, rfl, rfl, rfl, rfl, rfl, rfl⟩
+  obtain ⟨ip, zone, _, hb, _⟩ := hfull env pol a rs 0 (by simp [pol]) hacc
   have := hb 0 (by simp [pol])
   simp [env] at this
 
 /-- … and holds whenever the two lists are disjoint on the resolved address (in particular when the
 allowlist is "more restrictive", as the configuration file describes it, or absent). -/
 theorem accepted_outside_blocklist_and_inside_allowlist (env : Env Net Pat IP) (pol : Policy Net Pat)
-    (a : Answers IP) (hwf : pol.enableAllow = true ↔ pol.allow ≠ [])
+    (a : Answers) (rs : Resolver IP) (n : Nat) (hwf : pol.enableAllow = true ↔ pol.allow ≠ [])
     (hdisj : ∀ ip, inAny env pol.allow ip → ¬ inAny env pol.block ip)
-    (h : (parseOrResolve env pol a).out ≠ "") :
-    ∃ ip text, a.resolved = .addr (some ip) "" text ∧
-      (∀ n ∈ pol.block, env.contains n ip = false) ∧ (pol.allow ≠ [] → inAny env pol.allow ip) := by
-  obtain ⟨_, _, ip, text, _, _, _, hr, hf, _⟩ := accepted_is_permitted_literal env pol a h
-  refine ⟨ip, text, hr, ?_, ?_⟩
-  · intro n hn
-    cases hc : env.contains n ip with
+    (h : (parseOrResolve env pol a rs n).out ≠ "") :
+    ∃ ip, rs n = .addr (some ip) "" ∧
+      (∀ net ∈ pol.block, env.contains net ip = false) ∧ (pol.allow ≠ [] → inAny env pol.allow ip) := by
+  obtain ⟨_, _, ip, _, _, _, hr, hf, _⟩ := accepted_is_permitted_literal env pol a rs n h
+  refine ⟨ip, hr, ?_, ?_⟩
+  · intro net hn
+    cases hc : env.contains net ip with
     | false => rfl
     | true =>
       exfalso
-      have hin : inAny env pol.block ip := ⟨n, hn, hc⟩
+      have hin : inAny env pol.block ip := ⟨net, hn, hc⟩
       unfold Forbids at hf
       by_cases hal : pol.enableAllow = true
       · simp only [hal, if_true] at hf
@@ -133,56 +142,69 @@ theorem accepted_outside_blocklist_and_inside_allowlist (env : Env Net Pat IP) (
     simp only [hal, if_true] at hf
     exact Classical.not_not.mp hf
 
-/-- **Checked = dialed.**  A registration passes the covert step only with a non-rejected covert; the
-string then stored on the registration — the string `Proxy` hands to `net.Dial` — is the string that
-`ParseOrResolveBlocklisted` returned, i.e. the text of the one address that was policy-checked; and
-that admission consulted the resolver exactly once. -/
-theorem checked_is_dialed (env : Env Net Pat IP) (pol : Policy Net Pat) (reg reg' : Reg) (a : Answers IP)
-    (h : ingestCovert env pol reg a = some reg') :
-    proxyDial reg' = (parseOrResolve env pol a).out ∧ (parseOrResolve env pol a).out ≠ "" ∧
-      reg'.valid = true ∧ (parseOrResolve env pol a).resolverCalls = 1 := by
-  unfold ingestCovert at h
-  simp only at h
-  split at h
-  · cases h
-  · rename_i hne
-    simp only [Option.some.injEq] at h
-    subst h
-    refine ⟨rfl, hne, rfl, ?_⟩
-    obtain ⟨_, _, _, _, _, _, _, _, _, _, hout⟩ := (accepted_iff env pol a).mp hne
-    rw [hout]
+/-! ### resolved once, at admission; answers that change between lookups -/
 
-/-- a rejected covert never yields a valid registration -/
-theorem rejected_never_admitted (env : Env Net Pat IP) (pol : Policy Net Pat) (reg : Reg) (a : Answers IP)
-    (h : (parseOrResolve env pol a).out = "") : ingestCovert env pol reg a = none := by
-  unfold ingestCovert; simp [h]
+/-- names are resolved at most once per call, whatever the outcome: the resolver cursor moves by at most
+one answer (and never backwards) -/
+theorem resolved_at_most_once (env : Env Net Pat IP) (pol : Policy Net Pat) (a : Answers) (rs : Resolver IP)
+    (n : Nat) : n ≤ (parseOrResolve env pol a rs n).cursor ∧ (parseOrResolve env pol a rs n).cursor ≤ n + 1 :=
+  cursor_bounds env pol a rs n
 
-/-- names are resolved at most once per admission, whatever the outcome -/
-theorem resolved_at_most_once (env : Env Net Pat IP) (pol : Policy Net Pat) (a : Answers IP) :
-    (parseOrResolve env pol a).resolverCalls ≤ 1 := resolverCalls_le_one env pol a
+/-- an accepted covert consumed exactly one answer -/
+theorem accepted_resolved_exactly_once (env : Env Net Pat IP) (pol : Policy Net Pat) (a : Answers)
+    (rs : Resolver IP) (n : Nat) (h : (parseOrResolve env pol a rs n).out ≠ "") :
+    (parseOrResolve env pol a rs n).cursor = n + 1 := by
+  obtain ⟨_, _, _, _, _, _, _, _, _, hout⟩ := (accepted_iff env pol a rs n).mp h
+  rw [hout]
 
-/-- the dialed string is the text of the checked address joined with the checked port -/
-theorem dialed_is_checked_literal (env : Env Net Pat IP) (pol : Policy Net Pat) (reg reg' : Reg) (a : Answers IP)
-    (h : ingestCovert env pol reg a = some reg') :
-    ∃ host port ip text, a.split = some (host, port) ∧ a.resolved = .addr (some ip) "" text ∧
-      ¬ Forbids env pol ip ∧ proxyDial reg' = joinHostPort text port := by
-  obtain ⟨hd, hne, _, _⟩ := checked_is_dialed env pol reg reg' a h
-  obtain ⟨host, port, ip, text, hs, _, _, hr, hf, hout⟩ := accepted_is_permitted_literal env pol a hne
-  exact ⟨host, port, ip, text, hs, hr, hf, by rw [hd, hout]⟩
+/-- **Answers that change between lookups do not matter**: the result (accepted string, statistics
+flag, cursor) is a function of the single answer under the cursor — two resolvers that agree on that
+one answer and differ arbitrarily on every other lookup give the same result. -/
+theorem later_answers_irrelevant (env : Env Net Pat IP) (pol : Policy Net Pat) (a : Answers)
+    (rs rs' : Resolver IP) (n : Nat) (h : rs n = rs' n) :
+    parseOrResolve env pol a rs n = parseOrResolve env pol a rs' n :=
+  result_congr env pol a rs rs' n h
+
+/-- **The accepted string parses back to the checked address**: handed to `net.Dial` it is recognised as
+a literal — the IP that the policy was evaluated on, the port that was checked — and no resolver answer
+is consumed, whatever the resolver would answer now (`rs'` and `m` are arbitrary).  The two hypotheses
+are the standard-library contracts `SplitHostPort ∘ JoinHostPort` and `ParseIP ∘ IP.String` for this
+address and port; the harness checks both on every accepted case. -/
+theorem accepted_parses_back (env : Env Net Pat IP) (pol : Policy Net Pat) (a : Answers) (rs : Resolver IP)
+    (n : Nat) (L : DialLib IP) (h : (parseOrResolve env pol a rs n).out ≠ "") :
+    ∃ host port ip, a.split = some (host, port) ∧ rs n = .addr (some ip) "" ∧ ¬ Forbids env pol ip ∧
+      (L.splitHostPort (joinHostPort (env.ipText ip) port) = some (env.ipText ip, port) →
+       L.parseIP (env.ipText ip) = some ip →
+       ∀ (rs' : Resolver IP) (m : Nat),
+         netDial L (parseOrResolve env pol a rs n).out rs' m = (.literal ip port, m)) := by
+  obtain ⟨host, port, ip, hs, _, _, hr, hf, hout⟩ := accepted_is_permitted_literal env pol a rs n h
+  refine ⟨host, port, ip, hs, hr, hf, ?_⟩
+  intro hsplit hparse rs' m
+  rw [hout]
+  unfold netDial
+  rw [hsplit]
+  simp only [hparse]
+
+/-- a string that `net.Dial` does not recognise as a literal is resolved **at dial time**: the station
+would connect to whatever the resolver answers then (this is what the overwrite of `Covert` prevents) -/
+theorem name_is_resolved_at_dial (L : DialLib IP) (s host port : String) (rs : Resolver IP) (m : Nat)
+    (hs : L.splitHostPort s = some (host, port)) (hn : L.parseIP host = none) :
+    netDial L s rs m = (.resolved (rs m) port, m + 1) := by
+  unfold netDial; rw [hs]; simp only [hn]
 
 /-- **A well-formed permitted literal is accepted unchanged.**  `provided = JoinHostPort host port` with
-`host` a canonical literal (it parses, and resolves to itself without a zone), a uint16 port, a host that
-matches no blocklisted pattern and an address the policy does not forbid: the result is `provided`
-itself, and no name was resolved. -/
-theorem permitted_literal_unchanged (env : Env Net Pat IP) (pol : Policy Net Pat) (a : Answers IP)
-    (provided host port : String) (ip : IP)
+`host` a canonical literal (it parses, resolves to an address without a zone whose text is `host`), a
+uint16 port, a host that matches no blocklisted pattern and an address the policy does not forbid: the
+result is `provided` itself, and no name was resolved. -/
+theorem permitted_literal_unchanged (env : Env Net Pat IP) (pol : Policy Net Pat) (a : Answers)
+    (rs : Resolver IP) (n : Nat) (provided host port : String) (ip : IP)
     (hprov : provided = joinHostPort host port)
     (hnotip : a.providedIsIP = false)                       -- "host:port" is not itself an IP
     (hs : a.split = some (host, port)) (hport : a.portOk = true)
-    (hlit : a.hostIsIP = true) (hres : a.resolved = .addr (some ip) "" host)
+    (hlit : a.hostIsIP = true) (hres : rs n = .addr (some ip) "") (htext : env.ipText ip = host)
     (hdom : ∀ p ∈ pol.domains, env.matchString p host = false)
     (hperm : ¬ Forbids env pol ip) :
-    parseOrResolve env pol a = ⟨provided, false, 1⟩ := by
+    parseOrResolve env pol a rs n = ⟨provided, false, n + 1⟩ := by
   have hd : isBlocklistedCovertDomain env pol host = false := by
     unfold isBlocklistedCovertDomain
     cases hx : (pol.domains.any fun p => env.matchString p host) with
@@ -194,31 +216,205 @@ theorem permitted_literal_unchanged (env : Env Net Pat IP) (pol : Policy Net Pat
     cases hx : isBlocklistedCovertAddr env pol ip with
     | false => rfl
     | true => exact absurd ((isBlocklisted_iff_forbids env pol ip).mp hx) hperm
-  simp [parseOrResolve, hnotip, hs, hd, hport, hlit, hres, hb, hprov]
+  simp [parseOrResolve, hnotip, hs, hd, hport, hlit, hres, hb, hprov, addrText, htext]
+
+/-! ### which object becomes dialable: any number of workers, any interleaving -/
+
+section workers
+variable (env : Env Net Pat IP) (pol : Policy Net Pat) (inp : Inputs) (rs : Resolver IP)
+
+/-- object `i`'s `Covert` field holds the accepted output of a policy check of worker `i`'s own covert
+string (at some resolver cursor) -/
+def Checked (w : World) (i : Nat) : Prop :=
+  ∃ n, (parseOrResolve env pol (inp.ans i) rs n).out ≠ "" ∧
+    w.covertOf i = (parseOrResolve env pol (inp.ans i) rs n).out
+
+/-- the invariant of the interleaved runs -/
+structure Inv (w : World) : Prop where
+  /-- a worker that is about to validate has checked (and overwritten) its own object -/
+  ready : ∀ i, w.pc i = .beforeRegister → Checked env pol inp rs w i
+  /-- the object behind a valid entry belongs to a worker that is finished, and it is checked -/
+  valid : ∀ e, w.store = some e → e.valid = true → w.pc e.ptr = .done ∧ Checked env pol inp rs w e.ptr
+
+theorem inv_init (raw : Nat → String) (c : Nat) : Inv env pol inp rs (World.init raw c) :=
+  ⟨fun i h => by simp [World.init] at h, fun e h => by simp [World.init] at h⟩
+
+theorem checked_of_covertOf_eq {w w' : World} {i : Nat} (h : w'.covertOf i = w.covertOf i)
+    (hc : Checked env pol inp rs w i) : Checked env pol inp rs w' i := by
+  obtain ⟨n, hne, heq⟩ := hc
+  exact ⟨n, hne, by rw [h, heq]⟩
+
+theorem inv_step (w : World) (i : Nat) (hinv : Inv env pol inp rs w) : Inv env pol inp rs (step env pol inp rs w i) := by
+  obtain ⟨hready, hvalid⟩ := hinv
+  constructor
+  · intro j hj
+    by_cases hji : j = i
+    · subst hji
+      obtain ⟨hne, heq⟩ := step_pc_beforeRegister env pol inp rs w j hj
+      exact ⟨w.cursor, hne, heq⟩
+    · rw [step_pc_other env pol inp rs w i j hji] at hj
+      exact checked_of_covertOf_eq env pol inp rs (step_covertOf_other env pol inp rs w i j hji) (hready j hj)
+  · intro e he hv
+    rcases step_store_valid env pol inp rs w i e he hv with hold | ⟨hpc, rfl, hdone⟩
+    · obtain ⟨hd, hc⟩ := hvalid e hold hv
+      by_cases hei : e.ptr = i
+      · have : step env pol inp rs w i = w := step_done env pol inp rs w i (by rw [← hei]; exact hd)
+        rw [this]; exact ⟨hd, hc⟩
+      · exact ⟨by rw [step_pc_other env pol inp rs w i _ hei]; exact hd,
+          checked_of_covertOf_eq env pol inp rs (step_covertOf_other env pol inp rs w i _ hei) hc⟩
+    · exact ⟨hdone, checked_of_covertOf_eq env pol inp rs
+        (step_covertOf_self env pol inp rs w i (by rw [hpc]; simp)) (hready i hpc)⟩
+
+theorem inv_run (sched : List Nat) (w : World) (hinv : Inv env pol inp rs w) :
+    Inv env pol inp rs (runSched env pol inp rs w sched) := by
+  induction sched generalizing w with
+  | nil => exact hinv
+  | cons i rest ih => exact ih _ (inv_step env pol inp rs w i hinv)
+
+/-- **Checked = dialed, for every interleaving.**  Any number of workers ingest registrations for the
+same key (copies of one message, or re-sent registrations with other covert strings), interleaved in
+any order at the scheduling points of `ingestRegistration`, with any resolver.  Whenever a connection
+handler would get a registration to dial (a valid entry), the string it hands to `net.Dial` is the
+accepted output of a policy check of **the stored object's own** covert string: a literal of an
+address the policy does not forbid. -/
+theorem checked_is_dialed (raw : Nat → String) (c : Nat) (sched : List Nat) (s : String)
+    (h : (runSched env pol inp rs (World.init raw c) sched).dialString = some s) :
+    ∃ i n host port ip, (inp.ans i).split = some (host, port) ∧ rs n = .addr (some ip) "" ∧
+      ¬ Forbids env pol ip ∧ s = (parseOrResolve env pol (inp.ans i) rs n).out ∧
+      s = joinHostPort (env.ipText ip) port := by
+  have hinv := inv_run env pol inp rs sched _ (inv_init env pol inp rs raw c)
+  unfold World.dialString at h
+  cases hst : (runSched env pol inp rs (World.init raw c) sched).store with
+  | none => rw [hst] at h; cases h
+  | some e =>
+    rw [hst] at h
+    cases hv : e.valid with
+    | false => simp [hv] at h
+    | true =>
+      simp only [hv, if_true, Option.some.injEq] at h
+      obtain ⟨_, n, hne, heq⟩ := hinv.valid e hst hv
+      obtain ⟨host, port, ip, hs, _, _, hr, hf, hout⟩ := accepted_is_permitted_literal env pol (inp.ans e.ptr) rs n hne
+      exact ⟨e.ptr, n, host, port, ip, hs, hr, hf, by rw [← h, heq], by rw [← h, heq, hout]⟩
+
+/-- … and the dial itself: the stored string is recognised as the literal of that address and port; the
+connection goes there, no resolver answer is consumed at dial time, and nothing the resolver would
+answer now (`rs'`) has any influence. -/
+theorem dialed_is_checked_literal (raw : Nat → String) (c : Nat) (sched : List Nat) (L : DialLib IP)
+    (rs' : Resolver IP) (d : Dialed IP) (m : Nat)
+    (h : (runSched env pol inp rs (World.init raw c) sched).proxyDial L rs' = some (d, m)) :
+    ∃ i n host port ip, (inp.ans i).split = some (host, port) ∧ rs n = .addr (some ip) "" ∧ ¬ Forbids env pol ip ∧
+      (L.splitHostPort (joinHostPort (env.ipText ip) port) = some (env.ipText ip, port) →
+       L.parseIP (env.ipText ip) = some ip →
+       d = .literal ip port ∧ m = (runSched env pol inp rs (World.init raw c) sched).cursor) := by
+  unfold World.proxyDial at h
+  cases hs : (runSched env pol inp rs (World.init raw c) sched).dialString with
+  | none => rw [hs] at h; cases h
+  | some s =>
+    rw [hs] at h
+    simp only [Option.map_some, Option.some.injEq] at h
+    obtain ⟨i, n, host, port, ip, hsp, hr, hf, _, hlit⟩ := checked_is_dialed env pol inp rs raw c sched s hs
+    refine ⟨i, n, host, port, ip, hsp, hr, hf, ?_⟩
+    intro hsplit hparse
+    subst hlit
+    unfold netDial at h
+    rw [hsplit] at h
+    simp only [hparse, Prod.mk.injEq] at h
+    exact ⟨h.1.symm, h.2.symm⟩
+
+/-- a rejected covert never yields a dialable registration: if no worker's covert string is accepted
+(at any resolver cursor), no interleaving produces a valid entry -/
+theorem rejected_never_admitted (raw : Nat → String) (c : Nat) (sched : List Nat)
+    (hrej : ∀ i n, (parseOrResolve env pol (inp.ans i) rs n).out = "") :
+    (runSched env pol inp rs (World.init raw c) sched).dialString = none := by
+  cases h : (runSched env pol inp rs (World.init raw c) sched).dialString with
+  | none => rfl
+  | some s =>
+    obtain ⟨i, n, _, _, _, _, _, _, hs, _⟩ := checked_is_dialed env pol inp rs raw c sched s h
+    have hne : s ≠ "" := by
+      obtain ⟨_, _, _, _, _, _, _, _, _, hlit⟩ := checked_is_dialed env pol inp rs raw c sched s h
+      rw [hlit]; exact joinHostPort_ne_empty _ _
+    rw [hs, hrej i n] at hne
+    exact absurd rfl hne
+
+/-- **A re-sent registration cannot change what is dialed**: once a registration is dialable, no further
+step of any worker (a duplicate with another covert string, a late copy) changes the string that is
+handed to `net.Dial`. -/
+theorem dial_string_stable (w : World) (i : Nat) (s : String) (hinv : Inv env pol inp rs w)
+    (h : w.dialString = some s) : (step env pol inp rs w i).dialString = some s := by
+  unfold World.dialString at h
+  cases hst : w.store with
+  | none => rw [hst] at h; cases h
+  | some e =>
+    rw [hst] at h
+    cases hv : e.valid with
+    | false => simp [hv] at h
+    | true =>
+      simp only [hv, if_true, Option.some.injEq] at h
+      have hdone := (hinv.valid e hst hv).1
+      unfold World.dialString
+      rw [step_store_keeps_valid env pol inp rs w i e hst hv]
+      simp only [hv, if_true, Option.some.injEq]
+      by_cases hei : e.ptr = i
+      · rw [step_done env pol inp rs w i (by rw [← hei]; exact hdone)]; exact h
+      · rw [step_covertOf_other env pol inp rs w i _ hei]; exact h
+
+end workers
 
 /-! ### non-vacuity -/
 
-def env0 : Env Nat Nat Unit := { contains := fun n _ => n == 1, matchString := fun p _ => p == 9 }
+def env0 : Env Nat Nat Unit :=
+  { contains := fun n _ => n == 1, matchString := fun p _ => p == 9, ipText := fun _ => "198.51.100.7" }
 def pol0 : Policy Nat Nat := { block := [0, 2], allow := [], enableAllow := false, domains := [7] }
-def ans0 : Answers Unit := { providedIsIP := false, split := some ("198.51.100.7", "443"), portOk := true,
-                             hostIsIP := true, resolved := .addr (some ()) "" "198.51.100.7" }
+def ans0 : Answers := { providedIsIP := false, split := some ("198.51.100.7", "443"), portOk := true, hostIsIP := true }
+def rs0 : Resolver Unit := fun _ => .addr (some ()) ""
+/-- a resolver whose answer changes after the first lookup -/
+def rsFlip : Resolver Unit := fun n => if n = 0 then .addr (some ()) "" else .err
 
 -- a permitted literal is accepted (the hypotheses of the theorems above are satisfiable) …
-example : parseOrResolve env0 pol0 ans0 = ⟨joinHostPort "198.51.100.7" "443", false, 1⟩ := by
-  simp [parseOrResolve, env0, pol0, ans0, isBlocklistedCovertDomain, isBlocklistedCovertAddr]
-example : (parseOrResolve env0 pol0 ans0).out ≠ "" :=
-  (accepted_iff env0 pol0 ans0).mpr ⟨"198.51.100.7", "443", (), "198.51.100.7", rfl, rfl, rfl, rfl, rfl, rfl,
-    by simp [parseOrResolve, env0, pol0, ans0, isBlocklistedCovertDomain, isBlocklistedCovertAddr]⟩
+example : parseOrResolve env0 pol0 ans0 rs0 5 = ⟨joinHostPort "198.51.100.7" "443", false, 6⟩ := by
+  simp [parseOrResolve, env0, pol0, ans0, rs0, isBlocklistedCovertDomain, isBlocklistedCovertAddr, addrText]
+example : (parseOrResolve env0 pol0 ans0 rs0 0).out ≠ "" :=
+  (accepted_iff env0 pol0 ans0 rs0 0).mpr ⟨"198.51.100.7", "443", (), rfl, rfl, rfl, rfl, rfl, rfl,
+    by simp [parseOrResolve, env0, pol0, ans0, rs0, isBlocklistedCovertDomain, isBlocklistedCovertAddr, addrText]⟩
+-- … also under a resolver whose later answers differ …
+example : parseOrResolve env0 pol0 ans0 rsFlip 0 = parseOrResolve env0 pol0 ans0 rs0 0 :=
+  later_answers_irrelevant env0 pol0 ans0 rsFlip rs0 0 rfl
 -- … the empty host (ResolveIPAddr gives an address without an IP) is rejected …
-def ansEmpty : Answers Unit :=
-  { ans0 with split := some ("", "80"), hostIsIP := false, resolved := .addr none "" "" }
-example : (parseOrResolve env0 pol0 ansEmpty).out = "" := by
+def ansEmpty : Answers := { ans0 with split := some ("", "80"), hostIsIP := false }
+example : (parseOrResolve env0 pol0 ansEmpty (fun _ => .addr none "") 0).out = "" := by
   simp [parseOrResolve, env0, pol0, ans0, ansEmpty, isBlocklistedCovertDomain]
 -- … and so is a zone
-def ansZone : Answers Unit :=
-  { ans0 with split := some ("::ffff:10.0.0.1%eth0", "80"), hostIsIP := false,
-              resolved := .addr (some ()) "eth0" "10.0.0.1%eth0" }
-example : (parseOrResolve env0 pol0 ansZone).out = "" := by
+def ansZone : Answers := { ans0 with split := some ("::ffff:10.0.0.1%eth0", "80"), hostIsIP := false }
+example : (parseOrResolve env0 pol0 ansZone (fun _ => .addr (some ()) "eth0") 0).out = "" := by
   simp [parseOrResolve, env0, pol0, ans0, ansZone, isBlocklistedCovertDomain, isBlocklistedCovertAddr]
+
+/-- two workers for one key: worker 0 sends a name that is rejected, worker 1 a permitted literal -/
+def inp0 : Inputs :=
+  { ans := fun i => if i = 0 then { ans0 with split := some ("evil.test", "80"), hostIsIP := false } else ans0,
+    passes := fun _ => true }
+def rsTwo : Resolver Unit := fun n => if n = 0 then .err else .addr (some ()) ""
+def raw0 : Nat → String := fun i => if i = 0 then "evil.test:80" else "198.51.100.7:443"
+-- the interleaving of the race: 1 looks, 0 looks, 0 tracks (its object is stored), 1 tracks, 0 is
+-- rejected, 1 is checked and validates: what is dialable is worker 1's checked literal, not the raw
+-- string of the object that was tracked first
+example : (runSched env0 pol0 inp0 rsTwo (World.init raw0 0) [1, 0, 0, 1, 0, 1, 1]).dialString
+    = some (joinHostPort "198.51.100.7" "443") := by
+  simp [runSched, step, World.init, World.dialString, updateAt, registerStep, parseOrResolve, inp0, ans0, rsTwo, env0,
+    pol0, isBlocklistedCovertDomain, isBlocklistedCovertAddr, addrText, joinHostPort_ne_empty]
+-- a single worker, sequentially: admitted with its checked literal; a later duplicate changes nothing
+example : (runSched env0 pol0 inp0 rs0 (World.init raw0 0) [1, 1, 1, 1]).dialString
+    = some (joinHostPort "198.51.100.7" "443") := by
+  simp [runSched, step, World.init, World.dialString, updateAt, registerStep, parseOrResolve, inp0, ans0, rs0, env0,
+    pol0, isBlocklistedCovertDomain, isBlocklistedCovertAddr, addrText, joinHostPort_ne_empty]
+example : (runSched env0 pol0 inp0 rs0 (World.init raw0 0) [1, 1, 1, 1, 0, 0, 0, 0]).dialString
+    = some (joinHostPort "198.51.100.7" "443") := by
+  simp [runSched, step, World.init, World.dialString, updateAt, registerStep, parseOrResolve, inp0, ans0, rs0, env0,
+    pol0, isBlocklistedCovertDomain, isBlocklistedCovertAddr, addrText, joinHostPort_ne_empty]
+-- the dial of that string consumes no resolver answer
+def L0 : DialLib Unit :=
+  { splitHostPort := fun s => if s = joinHostPort "198.51.100.7" "443" then some ("198.51.100.7", "443") else none,
+    parseIP := fun h => if h = "198.51.100.7" then some () else none }
+example : netDial L0 (joinHostPort "198.51.100.7" "443") rsFlip 3 = (.literal () "443", 3) := by
+  simp [netDial, L0]
 
 end CJ.Props.C06
